@@ -324,9 +324,20 @@ func literalAlternatives(t *syntax.Regexp) []string {
 			}
 		case syntax.OpConcat:
 			// ^ followed by one alternative group
-			if len(t.Sub) == 2 && t.Sub[0].Op == syntax.OpBeginText || (len(t.Sub) >= 1 && t.Sub[0].Op == syntax.OpBeginLine) {
+			if len(t.Sub) >= 2 && (t.Sub[0].Op == syntax.OpBeginText || t.Sub[0].Op == syntax.OpBeginLine) {
+				// literal words only when the remainder is one alternative group (plus zero-width assertions)
+				groups := 0
 				for _, s := range t.Sub[1:] {
-					walk(s)
+					switch s.Op {
+					case syntax.OpWordBoundary, syntax.OpEndText, syntax.OpEndLine:
+					default:
+						groups++
+					}
+				}
+				if groups == 1 {
+					for _, s := range t.Sub[1:] {
+						walk(s)
+					}
 				}
 			}
 		}
